@@ -63,6 +63,9 @@ THEOREMS = [
     dict(name="Snow.C13.complete_or_raise_fresh_fixed_0D", clause="0D, run() as in /repo (SnowObj.runFixed), any earlier history of the object: complete results or every accessor raises", strength="full"),
     dict(name="Snow.C13.complete_or_raise_fresh_fixed_1D", clause="1D, run() as in /repo (SnowObj.runFixed), any earlier history of the object: complete results or every accessor raises", strength="full"),
     dict(name="Snow.C13.published_solid_rows_2D", clause="2D: every published solidification row holds iceFrac of its step's field, and that step's 90 % test used sigmaOf of exactly these entries", strength="full"),
+    dict(name="Snow.C13.hlen_run2D", clause="2D: tempProfile(dt) has exactly Nt_exp samples (discharges the side hypothesis of the 2D buffer/alignment theorems for the run itself)", strength="full"),
+    dict(name="Snow.C13.history_aligned_run2D", clause="2D: history alignment for S2D.run on (tempProfile(dt), Nt_exp) without side hypothesis", strength="full"),
+    dict(name="Snow.C13.time_nondecreasing_run2D", clause="2D: non-decreasing time axis for S2D.run on (tempProfile(dt), Nt_exp) without side hypothesis", strength="full"),
 ]
 TRUSTED = [
     "Lean 4.33 kernel; axioms per theorem listed under coverage.axioms",
